@@ -216,7 +216,7 @@ fn gen_const_nn(rng: &mut Rng, ix: &SchemaIx, ty: &Ty, depth: usize, coercing: b
                     Val::float(rng.s(&["1.5", "-0.25", "1e3", "2.0"]))
                 }
             }
-            "String" => Val::str(rng.s(&["", "x", "hello world", "a\"b"])),
+            "String" => Val::str(if crate::gen_syntax::allow_quotes() { rng.s(&["", "x", "hello world", "a\"b"]) } else { rng.s(&["", "x", "hello world", "a'b"]) }),
             "Boolean" => Val::boolean(rng.coin()),
             "ID" => {
                 if coercing && rng.chance(1, 3) {
